@@ -1,6 +1,8 @@
 import Bermuda.Model.Json
 import Bermuda.Model.Accessors
+import Bermuda.Model.AccessorsExt
 import Bermuda.Spec.C13
+import Bermuda.Spec.C13Ext
 open Lean Bermuda
 
 /-! Line-protocol driver for C13. One request per triangle:
@@ -51,6 +53,13 @@ def optIntJ : Option Int → Json
 def optIntF (j : Json) : Except String (Option Int) :=
   if j.isNull then .ok none else (jInt? j).map some
 
+def rowJ (p : RowKey × List Cell) : Json := Json.arr #[p.1.1.toJson, periodJ p.1.2, cellsToJson p.2]
+
+def rowF (j : Json) : Except String (RowKey × List Cell) := do
+  let a ← j.getArr?
+  if a.size != 3 then throw "row: want [metadata, period, cells]"
+  return ((← Metadata.fromJson a[0]!, ← periodF a[1]!), ← cellsFromJson a[2]!)
+
 def handle (j : Json) : Except String Json := do
   let cells ← cellsFromJson (← j.getObjVal? "cells")
   let units ← listF (·.getStr?) (← j.getObjVal? "units")
@@ -75,6 +84,8 @@ def handle (j : Json) : Except String Json := do
       ("common_metadata", exceptToJson Metadata.toJson (Triangle.commonMetadata t)),
       ("metadata_differences", exceptToJson (listJ Metadata.toJson) (Triangle.metadataDifferences t)),
       ("is_disjoint", Json.bool (Triangle.isDisjoint t)),
+      ("is_slicewise_disjoint", Json.bool (Triangle.isSlicewiseDisjoint t)),
+      ("slice_period_rows", listJ rowJ (Triangle.slicePeriodRows t)),
       ("is_semi_regular", perUnit fun u => exceptToJson Json.bool (Triangle.isSemiRegular t u)),
       ("is_regular", perUnit fun u => exceptToJson Json.bool (Triangle.isRegular t u)),
       ("period_resolution", exceptToJson optIntJ (Triangle.periodResolution t)),
@@ -82,6 +93,7 @@ def handle (j : Json) : Except String Json := do
     -- the independent taxonomy (Spec definitions), to be compared with the implementation's booleans
     let taxonomy := Json.mkObj [
       ("is_disjoint", Json.bool (Spec.C13.disjoint t)),
+      ("is_slicewise_disjoint", Json.bool (Spec.C13.slicewiseDisjoint t)),
       ("is_semi_regular", perUnit fun u => match u with
         | some u => Json.bool (Spec.C13.semiRegular t u)
         | none => Json.null),
@@ -131,6 +143,9 @@ def handle (j : Json) : Except String Json := do
           let c ← Metadata.fromJson c
           specOn impl "metadata_differences" true (listF Metadata.fromJson) (Spec.C13.recombineSpec ms c)
         | _, _ => pure Json.null),
+      ("is_slicewise_disjoint", ← specOn impl "is_slicewise_disjoint" false (·.getBool?)
+        (Spec.C13.slicewiseDisjointSpec t)),
+      ("slice_period_rows", ← specOn impl "slice_period_rows" false (listF rowF) (Spec.C13.rowsSpec t)),
       ("period_resolution", ← specOn impl "period_resolution" true optIntF (Spec.C13.periodResolutionSpec t)),
       ("eval_date_resolution", ← specOn impl "eval_date_resolution" true optIntF (Spec.C13.evalResolutionSpec t))]
     return Json.mkObj [("t", Json.mkObj [("ok", cellsToJson t)]), ("model", model), ("spec", spec),
